@@ -17,6 +17,13 @@ const VAL_FORMS = {
   call: () => ['mk0()', 'object'], objLit: () => ['{ x: 1, y: [2] }', 'object'], arrLit: () => ['[1, "two"]', 'unknown[]'], member: () => ['H.v', 'object'],
   cond: () => ['N0 > 0 ? "pos" : "neg"', 'string'], newExpr: () => ['new Date(0)', 'Date'], undef: () => ['undefined', 'string'],
 };
+// the same, reading module constants that are declared AFTER the defineComponent call: a static non-literal default sits
+// behind a factory, so it is only read when Vue asks for it (only generated for the static form; mergeDefaults reads eagerly)
+const LATE_FORMS = {
+  templateLate: () => ['`t${LATE_N}-label`', 'string'], identLate: () => ['LATE_V', 'object'], callLate: () => ['lateMk()', 'object'], memberLate: () => ['LATE_H.v', 'object'],
+  condLate: () => ['LATE_N > 0 ? "pos" : "neg"', 'string'], objLitLate: () => ['{ x: LATE_N }', 'object'], arrLitLate: () => ['[LATE_N, "two"]', 'unknown[]'], negLate: () => ['-LATE_N', 'number'], tplNoSubst: () => ['`plain`', 'string'],
+};
+const LATE_DECLS = ['const LATE_N = 7;', 'const LATE_V = { tag: "LV" };', 'const lateMk = () => LATE_V;', 'const LATE_H = { v: { tag: "LHv" } };'];
 const FN_FORMS = {
   arrow: () => ['() => "ret-arrow"'], fnExpr: () => ['function () { return "ret-fn"; }'], identFn: () => ['helperFn'], memberFn: () => ['H.f'],
 };
@@ -29,6 +36,7 @@ function buildCase(rng) {
   const decls = ['const N0 = 3;', 'const V0 = { tag: "V0" };', 'const S0 = "s-zero";', 'const mk0 = () => V0;', 'function helperFn() { return "ret-helper"; }', 'const H = { v: { tag: "Hv" }, f: () => "ret-Hf" };'];
   const feat = [];
   const lateDecls = [];
+  let usesLate = false;
   const spec = { props: [] };
   const dyn = rng.pick(['static', 'static', 'static', 'identifier', 'spread', 'computedIdentKey', 'computedCallKey', 'empty']);
   for (const k of keys) {
@@ -46,6 +54,7 @@ function buildCase(rng) {
         tsType = dyn === 'static' && rng.bool(0.3) ? rng.pick(['string | (() => string)', '(() => string) | number', '(() => string) | { x: 1 }']) : rng.bool(0.2) ? rng.pick(['(() => string) | any', 'unknown | (() => string)']) : '() => string';
         entry = `${keySrc}: ${src}`; feat.push(`fn:${f}${tsType === '() => string' ? '' : ':unionTyped'}`);
       }
+      else if (dyn === 'static' && rng.bool(0.25)) { const f = rng.pick(Object.keys(LATE_FORMS)); const [src, t] = LATE_FORMS[f](); tsType = t; entry = `${keySrc}: ${src}`; feat.push(`val:${f}`); usesLate = true; }
       else { const f = rng.pick(Object.keys(VAL_FORMS)); const [src, t] = VAL_FORMS[f](); tsType = t; entry = `${keySrc}: ${src}`; feat.push(`val:${f}`); }
     } else if (form === 'getter') {
       if (isComputedLit) continue;
@@ -94,6 +103,7 @@ function buildCase(rng) {
   const setupForm = rng.pick(['arrow', 'function']);
   const param = `props: { ${typeMembers.join('; ')} } = ${defaultSrc}`;
   const setup = setupForm === 'arrow' ? `(${param}) => () => null` : `function (${param}) { return () => null; }`;
+  if (usesLate) lateDecls.push(...LATE_DECLS);
   const src = `import { defineComponent } from "vue";\n${decls.join('\n')}\nexport const Comp = defineComponent(${setup});\n${lateDecls.join('\n')}\nexport const EXP = () => (${defaultSrc});\n`;
   return { src, spec, feature: [...new Set(feat)].sort().join('+') + `|n=${nProps}|${setupForm}`, dyn };
 }
